@@ -392,6 +392,83 @@ fn counting(src: &mut Src, st: &mut Stats, _env: &Env) -> CaseResult {
     Ok(())
 }
 
+/// Every compliance expression that uses a function x every compliance
+/// document and 40 schema documents (enumerated).
+fn cross(env: &Env, st: &mut Stats) -> Vec<Failure> {
+    let c = crate::corpus::corpus();
+    let mut docs: Vec<(J, String)> = c.documents().into_iter().map(|(j, t)| (j.clone(), t.to_string())).collect();
+    for i in 0..40u64 {
+        let bytes = crate::props::c01::seeded_bytes(env.seed, 0x5C4E + i, 2500);
+        let mut s = Src::new(&bytes);
+        let d = schema_doc(&mut s);
+        let t = d.to_json();
+        docs.push((d, t));
+    }
+    let mut fails = vec![];
+    let mut n = 0u64;
+    for e in c.valid_expressions() {
+        let tree = match crate::refparse::parse_strict(e) {
+            Ok(t) => t,
+            Err(_) => continue,
+        };
+        if crate::props::c01::is_core(&tree) {
+            continue;
+        }
+        n += 1;
+        for (d, dt) in &docs {
+            st.eval();
+            match compare("cross", &tree, e, d, dt, st, true) {
+                Ok(cmp) => {
+                    if cmp.nontrivial && st.nontrivial(&format!("{}\u{0}{}", e, dt)) {
+                        st.sample(|| json!({"expression": e, "document": dt}));
+                    }
+                }
+                Err(f) => {
+                    fails.push(f);
+                    if fails.len() > 20 {
+                        return fails;
+                    }
+                }
+            }
+        }
+    }
+    st.class_n("cross:function-expressions", n);
+    fails
+}
+
+fn replay_cross(case: &serde_json::Value, _env: &Env) -> CaseResult {
+    let e = case["expression"].as_str().unwrap_or("");
+    let dt = case["document"].as_str().unwrap_or("null");
+    let d = J::parse(dt).map_err(|m| Failure::new("cross", "harness-bad-doc", m, case.clone()))?;
+    let tree = crate::refparse::parse(e, crate::refparse::Mode::RelaxedExpref).map_err(|m| Failure::new("cross", "harness-bad-expr", m.msg, case.clone()))?;
+    let mut st = Stats::new();
+    compare("cross", &tree, e, &d, dt, &mut st, true).map(|_| ())
+}
+
+/// Token- and document-level minimisation (replayed by `cross`).
+fn minimise(f: &Failure, env: &Env) -> Option<(Failure, serde_json::Value)> {
+    let e = f.case["expression"].as_str()?;
+    let d = f.case["document"].as_str()?;
+    let check = |e: &str, d: &str| -> Option<String> {
+        match replay_cross(&json!({"expression": e, "document": d}), env) {
+            Err(fl) if !fl.sig.starts_with("harness-") => Some(fl.sig),
+            _ => None,
+        }
+    };
+    if check(e, d).as_deref() != Some(f.sig.as_str()) {
+        return None;
+    }
+    let (e2, d2) = crate::minimise::minimise_pair(e, d, &f.sig, &check);
+    let case = json!({"expression": e2, "document": d2});
+    match replay_cross(&case, env) {
+        Err(mut fl) => {
+            fl.message = format!("{} [minimised from a case of sub-check {}]", fl.message, f.sub);
+            Some((fl, json!({"kind": "case", "case": case})))
+        }
+        Ok(()) => None,
+    }
+}
+
 pub fn property() -> Property {
     Property {
         id: "C02",
@@ -401,8 +478,9 @@ pub fn property() -> Property {
             "sums and averages are compared with relative tolerance 1e-9; magnitudes stay finite".into(),
             "an expression reference passed where `any` is declared is a don't-care".into(),
         ],
-        minimise: None,
+        minimise: Some(minimise),
         subs: vec![
+            Sub::Custom(CustomSub { name: "cross", run: cross, replay: replay_cross }),
             Sub::Bytes(BytesSub { name: "direct", f: direct, max_len: 700, quick: Budget { threads: 8, cases: 6000 }, thorough: Budget { threads: 16, cases: 300_000 }, keep_unreproducible: false }),
             Sub::Bytes(BytesSub { name: "nested", f: nested, max_len: 2500, quick: Budget { threads: 8, cases: 3000 }, thorough: Budget { threads: 16, cases: 120_000 }, keep_unreproducible: false }),
             Sub::Bytes(BytesSub { name: "counting", f: counting, max_len: 500, quick: Budget { threads: 4, cases: 1500 }, thorough: Budget { threads: 16, cases: 50_000 }, keep_unreproducible: false }),
